@@ -25,6 +25,9 @@ type fval struct {
 	tuple  []*fval
 	cell   *fcell // a pointer
 	isNil  bool
+	sym    string        // an opaque, non-nil value named by how it was made: an error, the answer of a library constructor
+	fn     *ssa.Function // a function value
+	dyn    types.Type    // the type an interface value was made from
 }
 
 type fcell struct {
@@ -146,6 +149,38 @@ func (fo *folder) fromVal(v *Val, t types.Type) *fval {
 		return out
 	case "nil":
 		return &fval{isNil: true}
+	case "func":
+		if f, ok := v.Obj.(*types.Func); ok {
+			if sf := fo.c.Prog.FuncValue(f); sf != nil {
+				return &fval{fn: sf}
+			}
+		}
+	case "call":
+		// the answer of a constructor: of the module with constant arguments (folded), or of a library (opaque)
+		if f, ok := v.Obj.(*types.Func); ok {
+			sf := fo.c.Prog.FuncValue(f)
+			if sf != nil && sf.Blocks != nil && fo.c.InModule(sf) {
+				var as []*fval
+				for i, a := range v.Args {
+					var pt types.Type
+					if i < len(sf.Params) {
+						pt = sf.Params[i].Type()
+					}
+					x := fo.fromVal(a, pt)
+					if x == nil {
+						return nil
+					}
+					as = append(as, x)
+				}
+				if rs, ok := fo.Fold(sf, as, 1); ok && len(rs) == 1 {
+					return rs[0]
+				}
+				return nil
+			}
+			if len(v.Args) == 0 {
+				return &fval{sym: v.Fn + "()"}
+			}
+		}
 	}
 	return fo.fail("initialiser is not a literal: " + v.String())
 }
@@ -243,7 +278,7 @@ func (fo *folder) Fold(fn *ssa.Function, args []*fval, depth int) ([]*fval, bool
 			g := x
 			return &fval{cell: &fcell{get: func() *fval { return fo.global(g) }, set: func(*fval) { fo.fail("store to a package-level variable") }}}
 		case *ssa.Function:
-			return fo.fail("function value")
+			return &fval{fn: x}
 		}
 		if r, ok := env[v]; ok {
 			return r
@@ -258,6 +293,21 @@ func (fo *folder) Fold(fn *ssa.Function, args []*fval, depth int) ([]*fval, bool
 			if op == token.NEQ {
 				return fconst(constant.MakeBool(!(a.isNil && b.isNil)))
 			}
+		}
+		if (a.sym != "" || a.fn != nil) && (b.sym != "" || b.fn != nil) && (op == token.EQL || op == token.NEQ) {
+			same := a.sym == b.sym && a.fn == b.fn
+			return fconst(constant.MakeBool(same == (op == token.EQL)))
+		}
+		if a.isList && b.isList && (op == token.EQL || op == token.NEQ) {
+			// arrays and structs of constants
+			same := len(a.list) == len(b.list)
+			for i := 0; same && i < len(a.list); i++ {
+				if a.list[i].k == nil || b.list[i].k == nil {
+					return fo.fail("comparison of values that are not constants")
+				}
+				same = constant.Compare(a.list[i].k, token.EQL, b.list[i].k)
+			}
+			return fconst(constant.MakeBool(same == (op == token.EQL)))
 		}
 		if a.k == nil || b.k == nil {
 			return fo.fail("comparison of values that are not constants")
@@ -395,6 +445,26 @@ func (fo *folder) Fold(fn *ssa.Function, args []*fval, depth int) ([]*fval, bool
 					return nil, false
 				}
 				env[x] = a
+			case *ssa.ChangeInterface:
+				a := val(x.X)
+				if a == nil {
+					return nil, false
+				}
+				env[x] = a
+			case *ssa.MakeInterface:
+				a := val(x.X)
+				if a == nil {
+					return nil, false
+				}
+				cp := *a
+				cp.dyn = x.X.Type()
+				env[x] = &cp
+			case *ssa.MakeClosure:
+				if len(x.Bindings) != 0 {
+					fo.fail("closure over variables")
+					return nil, false
+				}
+				env[x] = &fval{fn: x.Fn.(*ssa.Function)}
 			case *ssa.IndexAddr:
 				base, idx := val(x.X), val(x.Index)
 				if base == nil || idx == nil || idx.k == nil {
@@ -580,6 +650,11 @@ func (fo *folder) Fold(fn *ssa.Function, args []*fval, depth int) ([]*fval, bool
 					break
 				}
 				callee := x.Call.StaticCallee()
+				if callee == nil && !x.Call.IsInvoke() {
+					if fv := val(x.Call.Value); fv != nil && fv.fn != nil {
+						callee = fv.fn
+					}
+				}
 				if callee == nil || x.Call.IsInvoke() {
 					fo.fail("dynamic call")
 					return nil, false
@@ -644,6 +719,15 @@ func (fo *folder) pureLibrary(name string, as []*fval) *fval {
 			return "", false
 		}
 		return constant.StringVal(as[i].k), true
+	}
+	switch name {
+	case "fmt.Errorf", "errors.New":
+		return &fval{sym: "error"}
+	case "crypto/elliptic.P224", "crypto/elliptic.P256", "crypto/elliptic.P384", "crypto/elliptic.P521":
+		return &fval{sym: name + "()"}
+	}
+	if strings.Contains(name, "/brainpool.P") && len(as) == 0 {
+		return &fval{sym: name + "()"}
 	}
 	switch name {
 	case "strings.ToLower", "strings.ToUpper", "strings.TrimSpace":
